@@ -314,6 +314,20 @@ fn c01_like(tier: Tier, oracles: Oracles, with_drop: bool) -> Vec<Scenario> {
     let mut sc = Scenario::new("edge-m1-owned-args", Cfg { owned_args: true, ..Cfg::default() }, esetup, Box::new(txs_of(&eops, 1, with_drop, true)), if q { 2 } else { 3 }, oracles);
     sc.extra_probes = vec![blob(""), blob("a"), blob("K*1100")];
     out.push(sc);
+    // values of many pages: a single commit that has to extend the file by more than one step
+    {
+        let hops = vec![
+            OpSpec::put(&["h"], "big", "H*9500000"),
+            OpSpec::put(&["h"], "bigger", "I*17900000"),
+            OpSpec::put(&["h"], "small", "v*8"),
+            OpSpec::del(&["h"], "big"),
+            OpSpec::del(&["h"], "bigger"),
+        ];
+        let hsetup = vec![tx(vec![OpSpec::bucket("create", &[], "h")])];
+        let mut sc = Scenario::new("huge-values", Cfg { num_pages: 8, ..Cfg::default() }, hsetup, Box::new(txs_of(&hops, if q { 1 } else { 2 }, false, true)), 2, oracles);
+        sc.extra_probes = vec![blob("big")];
+        out.push(sc);
+    }
     // subset driver
     out.extend(subset_scenarios(tier, oracles, 14));
     if !q {
